@@ -297,6 +297,17 @@ def msg2(kind, who):
     if kind == "pos":
         e = C.encode(Fr(521, 10), Fr(45, 10), 0)
         return F.es(C.me_airborne(11, 0xC38, 0, e["yz"], e["xz"]), aa, 5, 18 if who == "B" else 17), "adsb"
+    adsb_kinds = {
+        "as": F.me(19, [(6, 3, 3), (14, 1, 1), (15, 10, 200), (25, 1, 1), (26, 10, 301), (38, 9, 10)]),      # airspeed / heading subtype
+        "v0": F.me(19, [(6, 3, 1), (15, 10, 0), (26, 10, 100), (38, 9, 10)]),                            # velocity with an unavailable component
+        "vel": F.me(19, [(6, 3, 1), (15, 10, 121), (26, 10, 101), (38, 9, 5)]),
+        "sfc0": C.me_surface(7, 0, 0, 0, 0, 1000, 2000),                                                # surface, no movement / track information
+        "sfcmix": C.me_surface(7, 12, 1, 40, 1, 1000, 2000),                                            # odd surface frame (pairs with an airborne even one)
+        "st": F.me(31, [(41, 3, 2), (44, 1, 1)]), "ts": F.me(29, [(6, 2, 1), (10, 11, 1001)]), "em": F.me(28, [(6, 3, 1), (12, 13, 0x0AAA)]),
+        "tc0": F.me(0, rest=0x123456), "tc23": F.me(23, rest=0x123456), "gnss": C.me_airborne(20, 0x500, 0, 3000, 4000),
+    }
+    if kind in adsb_kinds:
+        return F.es(adsb_kinds[kind], aa, 5, 18 if who == "B" else 17), "adsb"
     if kind == "b50":
         return F.long_ap(20, 0x0001838 & 0x7FFFFFF, CF.bds50(), aa), "commb"
     if kind == "b60":
@@ -391,8 +402,23 @@ def lag_events():
     return ev
 
 
+ALL_ADSB = ["id", "pos", "as", "v0", "vel", "sfc0", "sfcmix", "st", "ts", "em", "tc0", "tc23", "gnss"]
+ALL_GAPS = [30, 57.4, 61.2]
+
+
+def all_adsb_events():
+    """exploration 2c: one aircraft heard through EVERY kind of ADS-B message (also those the table has nothing to learn
+    from: airspeed-type velocity, velocity with an unavailable component, surface without movement information, type codes
+    0 and 23, status, target state, emergency), a second aircraft for contrast."""
+    return [("A", k_, g) for k_ in ALL_ADSB for g in ALL_GAPS] + [("B", "id", g) for g in ALL_GAPS]
+
+
 def run_listing(prefix, depth, kinds, gaps, acc):
     def succ(st):
+        if kinds == "all_adsb":
+            for ev in all_adsb_events():
+                yield ev, step2(st, *ev)
+            return
         if kinds == "lag":
             for ev in lag_events():
                 yield ev, step2(st, *ev)
@@ -702,7 +728,7 @@ def w_any(task):
         for sig, trace, info in v:
             acc.bad(sig, {"kind": "list", "events": [list(e) for e in trace], "info": info})
         acc.out.add(("list", tuple(prefix)))
-        if tuple(prefix[0]) == ("A", "id", 0.3) and tuple(prefix[1]) == ("A", "id", 0.3):
+        if len(prefix) > 1 and tuple(prefix[0]) == ("A", "id", 0.3) and tuple(prefix[1]) == ("A", "id", 0.3):
             acc.samples.append({"exploration": "listing", "prefix": [list(p) for p in prefix], "msg": msg2("id", "A")[0]})
     else:
         _, seed_name, firsts, full, depth = task
@@ -738,6 +764,8 @@ def run(ctx):
     for a in ev2b:
         for b in ev2b:
             tasks.append(("list", (a, b), 5 if ctx.thorough else 4, "lag", None))
+    for a in all_adsb_events():
+        tasks.append(("list", (a,), 4 if ctx.thorough else 3, "all_adsb", None))
     for b in BATCHES:
         tasks.append(("batch", b, 4 if ctx.thorough else 3))
     for sn in feature_seeds():
